@@ -5,6 +5,7 @@
 package sut
 
 import (
+	"io"
 	"bytes"
 	"context"
 	"crypto/sha256"
@@ -94,11 +95,46 @@ type Cmd struct {
 	Bin     string
 	Args    []string
 	Stdin   []byte
-	Dir     string
+	// StdinMode says how the bytes of Stdin reach the process: "" = a pipe written in one go, "split" = a pipe
+	// written in two pieces with a pause between them, "dribble" = a pipe written in pieces of 7 bytes,
+	// "file" = a regular file opened as descriptor 0.
+	StdinMode string
+	Dir       string
 	Env     []string // extra KEY=VALUE entries
 	Timeout time.Duration
 	Strace  string // if non-empty, path of the strace log to write
 	retries int
+}
+
+// pieces hands data out in pieces of at most size bytes and pauses before every piece but the first, so that the
+// copying goroutine of os/exec performs one write per piece.
+type pieces struct {
+	data  []byte
+	size  int
+	pause time.Duration
+	off   int
+}
+
+func (p *pieces) Read(b []byte) (int, error) {
+	if p.off >= len(p.data) {
+		return 0, io.EOF
+	}
+	if p.off > 0 {
+		time.Sleep(p.pause)
+	}
+	n := p.size
+	if n < 1 {
+		n = 1
+	}
+	if n > len(b) {
+		n = len(b)
+	}
+	if n > len(p.data)-p.off {
+		n = len(p.data) - p.off
+	}
+	copy(b, p.data[p.off:p.off+n])
+	p.off += n
+	return n, nil
 }
 
 // Result is what was observed at the process boundary.
@@ -184,7 +220,25 @@ func Run(c Cmd) *Result {
 	cmd.Env = append(BaseEnv(home), c.Env...)
 	cmd.Dir = c.Dir
 	if c.Stdin != nil {
-		cmd.Stdin = bytes.NewReader(c.Stdin)
+		switch c.StdinMode {
+		case "split":
+			cmd.Stdin = &pieces{data: c.Stdin, size: (len(c.Stdin) + 1) / 2, pause: 250 * time.Millisecond}
+		case "dribble":
+			cmd.Stdin = &pieces{data: c.Stdin, size: 7, pause: time.Millisecond}
+		case "file":
+			f, err := os.CreateTemp("", "stdin-*")
+			if err == nil {
+				_, _ = f.Write(c.Stdin)
+				_, _ = f.Seek(0, 0)
+				defer os.Remove(f.Name())
+				defer f.Close()
+				cmd.Stdin = f
+			} else {
+				cmd.Stdin = bytes.NewReader(c.Stdin)
+			}
+		default:
+			cmd.Stdin = bytes.NewReader(c.Stdin)
+		}
 	}
 	var so, se bytes.Buffer
 	cmd.Stdout, cmd.Stderr = &so, &se
